@@ -171,17 +171,39 @@ def tlc_trace(work, module, tracefile, procs=6, workers=2, timeout=3000, heap="5
 
     def one(i):
         pth, n = parts[i]
-        e = dict(VH_TRACE=pth, VH_SHARDS=str(workers))
-        if env:
-            e.update(env)
-        r = tlc(work, module, cfg=cfg, workers=workers, timeout=timeout, env=e, heap=heap, tag="%s-p%d" % (module, i))
-        if r["error"] is not None or r["violated"] or r["rc"] != 0:
-            at = r["out"].find("Error:")
-            raise Infra("trace validation %s part %d: TLC error\n%s" % (module, i, r["out"][max(0, at - 200):at + 2500]))
-        if r["distinct"] != n + workers:
-            raise Infra("trace validation %s part %d consumed %d of %d lines" % (module, i, r["distinct"] - workers, n))
-        ids = [int(re.findall(r"(\d+)\s*>>", m)[-1]) for m in r["mismatches"]]
-        return ids, r["distinct"], r["generated"]
+        ids, distinct, generated = [], 0, 0
+        for attempt in range(40):
+            e = dict(VH_TRACE=pth, VH_SHARDS=str(workers))
+            if env:
+                e.update(env)
+            r = tlc(work, module, cfg=cfg, workers=workers, timeout=timeout, env=e, heap=heap, tag="%s-p%d" % (module, i))
+            ids += [int(re.findall(r"(\d+)\s*>>", m)[-1]) for m in r["mismatches"]]
+            incomparable = re.search(r"Attempted to (check equality of|compare) ", r["out"])
+            if incomparable and not r["violated"]:
+                # The recorded value has a shape that cannot even be compared with the specification's value
+                # (e.g. a string where bytes are expected): that line is a mismatch. Drop it and validate the rest.
+                ls = [int(x) for x in re.findall(r"^/\\ l = (\d+)", r["out"], re.M)]
+                if not ls:
+                    raise Infra("trace validation %s part %d: TLC type error without position\n%s" % (module, i, r["out"][-2000:]))
+                lines_ = open(pth).read().splitlines()
+                k = ls[-1]
+                ids.append(json.loads(lines_[k - 1])["id"])
+                del lines_[k - 1]
+                n -= 1
+                open(pth, "w").write("\n".join(lines_) + "\n")
+                if n == 0:
+                    break
+                continue
+            if r["error"] is not None or r["violated"] or r["rc"] != 0:
+                at = r["out"].find("Error:")
+                raise Infra("trace validation %s part %d: TLC error\n%s" % (module, i, r["out"][max(0, at - 200):at + 2500]))
+            if r["distinct"] != n + workers:
+                raise Infra("trace validation %s part %d consumed %d of %d lines" % (module, i, r["distinct"] - workers, n))
+            distinct, generated = r["distinct"], r["generated"]
+            break
+        else:
+            pass
+        return ids, distinct, generated
 
     with ThreadPoolExecutor(max_workers=len(parts)) as ex:
         rs = list(ex.map(one, range(len(parts))))
